@@ -80,6 +80,7 @@ type simWorld struct {
 	autoc   map[string]bool
 	fwdErr  error
 	stDelay time.Duration
+	stAfter time.Duration // a forwarding read returns this long after it has sampled the value
 
 	ifis []config.Interface
 	logs *lockedBuf
@@ -88,9 +89,9 @@ type simWorld struct {
 	cctx *Context
 
 	// scripts
-	writeLatency func(conn, n int, dst netip.Addr) time.Duration // n counts writes per connection from 0
-	writeErr     func(conn, n int, dst netip.Addr) error
-	dialResult   func(n int) error // nil = success
+	writeLatency  func(conn, n int, dst netip.Addr) time.Duration // n counts writes per connection from 0
+	writeErr      func(conn, n int, dst netip.Addr) error
+	dialResult    func(n int) error // nil = success
 	dialResultFor func(iface string, n int) error
 }
 
@@ -148,6 +149,11 @@ func (s simState) IPv6Forwarding(iface string) (bool, error) {
 		v = true
 	}
 	s.w.stLog = append(s.w.stLog, simStateCall{s.w.now(), "get-forwarding", iface, v})
+	if after := s.w.stAfter; after > 0 {
+		s.w.mu.Unlock()
+		time.Sleep(after)
+		s.w.mu.Lock()
+	}
 	return v, nil
 }
 
